@@ -117,6 +117,7 @@ func init() {
 		c.p.replace[name] = fv
 		return nil, ctlRet
 	}
+	z("RaceMonitor", func(c *callCtx) (Value, ctl) { c.p.eraser = true; return nil, ctlRet })
 	z("Native", func(c *callCtx) (Value, ctl) { return c.p.tc().False, ctlRet })
 	z("NativeUnsupported", func(c *callCtx) (Value, ctl) { return nil, ctlRet })
 	z("Replace", replaceFn)
